@@ -77,7 +77,8 @@ inductive StepSpec (E : Env α β υ ε σ) (w : σ) (s : SState α β) :
       StepSpec E w s (w', [.sent (expected s) r], .next (advance s))
   | peerErr (w' : σ) (e : ε) :
       E.size (expected s) ≤ E.limit → E.peer w (expected s) = (w', .error e) →
-      StepSpec E w s (w', [.errored (expected s)], .stop (.failed (.peer e)))
+      StepSpec E w s (w', [.errored (expected s)],
+        .stop (.failed (if E.exhausted e then .tooLarge else .peer e)))
   | giveUp :
       E.limit < E.size (expected s) →
       E.policy s.podsPer s.ctrsPer E.limit (E.size (expected s)) = none →
@@ -98,7 +99,8 @@ theorem step_eq (E : Env α β υ ε σ) (w : σ) (s : SState α β) (hG : Good 
           else if !r.update.isEmpty || r.more != (expected s).more then
             (w', [.sent (expected s) r], .stop (.failed .noSplit))
           else (w', [.sent (expected s) r], .next (advance s))
-        | (w', .error e) => (w', [.errored (expected s)], .stop (.failed (.peer e)))
+        | (w', .error e) =>
+          (w', [.errored (expected s)], .stop (.failed (if E.exhausted e then .tooLarge else .peer e)))
       else
         match E.policy s.podsPer s.ctrsPer E.limit (E.size (expected s)) with
         | none => (w, [.rejected (expected s) (E.size (expected s))], .stop (.failed .tooLarge))
